@@ -1,4 +1,5 @@
 import N0Verif.Proofs.XPathLeaves
+import N0Verif.Proofs.XPathListRoot
 /-!
 # C01 — every enumerated xpath resolves to exactly the leaf it names
 
@@ -126,6 +127,102 @@ theorem C01_resolves (cls : Cls) (kvs : List (Str × Val)) (ht : PlainTree (.dic
     simp
   exact ⟨2 * p.length, fun fuel hf => C01_resolves_node cls kvs p c d hpp hne hg fuel hf⟩
 
+/-! ### list-rooted containers addressed with a leading index -/
+
+/-- **Tree layer, list root, any spelling.**  If a token list spells position `p` of a list-rooted
+tree, `n0list._find` returns exactly the node at `p` (index tokens are walked by `n0list._find`,
+also through nested lists; the first dict element is handed to `n0dict._find`). -/
+theorem C01_findL_spelled (cls : Cls) (xs : List Val) (rl : Bool) (toks : List Str) (p : Pos) (c : Val)
+    (hs : Spells toks (.list cls xs) p c) (hne : toks ≠ []) (fuel : Nat) (hf : fuel ≥ 2 * toks.length) :
+    ∃ r, findL fuel (.list cls xs) [] toks (.at []) rl slash = .ok (.list cls xs, r) ∧
+      FoundAt (.list cls xs) [] p c r :=
+  findL_spells (.list cls xs) rl [] hs hne fuel [] slash ⟨cls, xs, rfl⟩ rfl hf
+
+/-- **Resolution on a list root.**  For a list-rooted tree with plain keys the canonical path of
+every node at a position `[n] ++ rest` — written without a leading '/' (`[0]/a/b[1]`) or with it
+(`/[0]/a/b[1]`) — resolves through item access and `get` to exactly that node; the tree is
+unchanged. -/
+theorem C01_list_root_node (cls : Cls) (xs : List Val) (n : Nat) (rest : Pos) (c d : Val)
+    (hp : PlainPos rest) (hget : getAt (.list cls xs) (.idx n :: rest) = some c)
+    (fuel : Nat) (hf : fuel ≥ 2 * (rest.length + 1)) :
+    let t := Val.list cls xs
+    let p : Pos := .idx n :: rest
+    getItem fuel t (renderPos p) = (t, .ok c) ∧ get fuel t (renderPos p) d = (t, .ok c) ∧
+    getItem fuel t (slash ++ renderPos p) = (t, .ok c) ∧ get fuel t (slash ++ renderPos p) d = (t, .ok c) := by
+  intro t p
+  have hp' : PlainPos p := hp
+  have hs := spells_merged p t c hp' hget
+  have hlen := mergedToks_length_le p
+  have hne := mergedToks_ne_nil p (by simp [p])
+  have hpl : p.length = rest.length + 1 := by simp [p]
+  have htok1 : tokenize (renderPos p) = mergedToks p := tokenize_render_idx n rest hp
+  have htok2 : tokenize (slash ++ renderPos p) = mergedToks p := tokenize_render p hp'
+  have hform : renderPos p = '[' :: (natStr n ++ ']' :: renderPos rest) := by
+    simp [p, renderPos, renderSeg, bracket]
+  have hq1 : startsWith (renderPos p) ['?'] = false := by rw [hform]; simp [startsWith]
+  have hc1 : hasPathChar (renderPos p) = true := by rw [hform]; simp [hasPathChar]
+  have hq2 : startsWith (slash ++ renderPos p) ['?'] = false := by simp [slash, startsWith]
+  have hc2 : hasPathChar (slash ++ renderPos p) = true := by simp [hasPathChar, slash]
+  refine ⟨?_, ?_, ?_, ?_⟩
+  · exact getCore_list_path fuel cls xs _ _ true true p c hq1 hc1 (by rw [htok1]; exact hs) (by rw [htok1]; exact hne)
+      (by rw [htok1]; omega)
+  · exact getCore_list_path fuel cls xs _ _ false true p c hq1 hc1 (by rw [htok1]; exact hs) (by rw [htok1]; exact hne)
+      (by rw [htok1]; omega)
+  · exact getCore_list_path fuel cls xs _ _ true true p c hq2 hc2 (by rw [htok2]; exact hs) (by rw [htok2]; exact hne)
+      (by rw [htok2]; omega)
+  · exact getCore_list_path fuel cls xs _ _ false true p c hq2 hc2 (by rw [htok2]; exact hs) (by rw [htok2]; exact hne)
+      (by rw [htok2]; omega)
+
+/-- **Bare index on a list root.**  A text without '/' and '[' (`l['0']`, `l.get('-1')`,
+`'last()'`, `'last()-k'`, `'i+j'`) is evaluated by `n0eval` and used as a Python index: every
+index spelling of `C01_index_spellings` returns the element Python indexing gives. -/
+theorem C01_list_root_bare (cls : Cls) (xs : List Val) (n : Nat) (c d : Val) (hx : xs[n]? = some c)
+    (fuel : Nat) (s : Str)
+    (hsp : s = natStr n ∨ s = '-' :: natStr (xs.length - n) ∨ (n = xs.length - 1 ∧ s = sLast) ∨
+      s = sLast ++ '-' :: natStr (xs.length - 1 - n) ∨ ∃ a b, a + b = n ∧ s = natStr a ++ '+' :: natStr b) :
+    getItem fuel (.list cls xs) s = (.list cls xs, .ok c) ∧ get fuel (.list cls xs) s d = (.list cls xs, .ok c) := by
+  have hlt : n < xs.length := by
+    rcases Nat.lt_or_ge n xs.length with h | h
+    · exact h
+    · rw [List.getElem?_eq_none h] at hx; cases hx
+  obtain ⟨h1, h2, h3, h4, h5⟩ := C01_index_spellings xs.length n hlt
+  have key : ∀ (s : Str) (i : Int), s ≠ [] → (∀ ch ∈ s, bareChar ch = true) → n0eval s = .ok (.int i) →
+      normIdx i xs.length = some n →
+      getItem fuel (.list cls xs) s = (.list cls xs, .ok c) ∧ get fuel (.list cls xs) s d = (.list cls xs, .ok c) := by
+    intro s i hne hb hev hn
+    obtain ⟨hq, hpc⟩ := bare_facts hne hb
+    exact ⟨getCore_list_bare fuel cls xs s _ true true i n c hne hq hpc hev hn hx,
+      getCore_list_bare fuel cls xs s _ false true i n c hne hq hpc hev hn hx⟩
+  have hlastb : ∀ ch ∈ sLast, bareChar ch = true := by rw [sLast_eq]; decide
+  rcases hsp with rfl | rfl | ⟨hn, rfl⟩ | rfl | ⟨a, b, hab, rfl⟩
+  · obtain ⟨i, hev, hn⟩ := h1
+    exact key _ i (natDigits_ne_nil n) (natStr_bare n) hev hn
+  · obtain ⟨i, hev, hn⟩ := h2
+    refine key _ i (by simp) ?_ hev hn
+    intro ch hc
+    simp only [List.mem_cons] at hc
+    rcases hc with rfl | hc
+    · decide
+    · exact natStr_bare _ ch hc
+  · obtain ⟨i, hev, hn'⟩ := h3 hn
+    exact key _ i (by rw [sLast_eq]; simp) hlastb hev hn'
+  · obtain ⟨i, hev, hn⟩ := h4
+    refine key _ i (by rw [sLast_eq]; simp) ?_ hev hn
+    intro ch hc
+    simp only [List.mem_append, List.mem_cons] at hc
+    rcases hc with hc | rfl | hc
+    · exact hlastb ch hc
+    · decide
+    · exact natStr_bare _ ch hc
+  · obtain ⟨i, hev, hn⟩ := h5 a b hab
+    refine key _ i (by simp) ?_ hev hn
+    intro ch hc
+    simp only [List.mem_append, List.mem_cons] at hc
+    rcases hc with hc | rfl | hc
+    · exact natStr_bare _ ch hc
+    · decide
+    · exact natStr_bare _ ch hc
+
 /-! Non-vacuity: a concrete tree with nested lists, a list in a list, empty containers. -/
 def exTree : Val :=
   .dict .n0 [(['a'], .dict .plain [(['b'], .list .plain [.int 1, .list .n0 [.str ['x'], .none]]),
@@ -137,5 +234,24 @@ example : xpathEnum exTree =
 example : (getItem 20 exTree ['/', '/', 'a', '/', 'b', '[', '1', ']', '[', '0', ']']).2 = .ok (.str ['x']) := by decide
 example : (getItem 20 exTree ['/', 'a', '/', 'b', '[', 'l', 'a', 's', 't', '(', ')', ']', '/', '[', '-', '2', ']']).2 = .ok (.str ['x']) := by decide
 example : (XPath.get 20 exTree ['a', '/', 'b', '[', '2', ']'] (.str ['D'])).2 = .ok (.str ['D']) := by decide
+
+
+/-- a list root: a dict element, a nested list, a scalar -/
+def exList : Val :=
+  .list .n0 [.dict .plain [(['a'], .dict .plain [(['b'], .list .plain [.int 7, .int 8])])],
+             .list .plain [.str ['x'], .list .n0 [.none, .bool false]],
+             .int 5]
+
+example : getAt exList [.idx 0, .key ['a'], .key ['b'], .idx 1] = some (.int 8) := by decide
+example : (getItem 20 exList ['[', '0', ']', '/', 'a', '/', 'b', '[', '1', ']']) = (exList, .ok (.int 8)) := by decide
+example : (XPath.get 20 exList ['/', '[', '0', ']', '/', 'a', '/', 'b', '[', '1', ']'] (.str ['D'])) = (exList, .ok (.int 8)) := by decide
+-- a path that stays inside `n0list._find` (nested lists)
+example : (getItem 20 exList ['[', '1', ']', '[', '1', ']', '[', '1', ']']) = (exList, .ok (.bool false)) := by decide
+-- bare index texts
+example : (getItem 20 exList ['2']) = (exList, .ok (.int 5)) := by decide
+example : (getItem 20 exList ['-', '1']) = (exList, .ok (.int 5)) := by decide
+example : (XPath.get 20 exList ['l', 'a', 's', 't', '(', ')', '-', '1'] (.str ['D'])).2
+    = .ok (.list .plain [.str ['x'], .list .n0 [.none, .bool false]]) := by decide
+example : (getItem 20 exList ['1', '+', '1']) = (exList, .ok (.int 5)) := by decide
 
 end N0.C01
